@@ -17,7 +17,12 @@
 // rendered as POther / DOther, which makes the Coq proof over the table fail.  For the prefix-style
 // creator (openStagedFile) the tool checks that the callee builds
 // filepath.Join(dir, fmt.Sprintf("%s%x", prefix, suffix)) and opens it with O_CREATE|O_EXCL, and then
-// appends "*" to the last literal; for createCutTemporaryOutput it checks strings.Replace(pattern, "*", …, 1),
+// appends "*" to the last literal.  A second table, publish_sites, lists for every function that opens the
+// output of a publish protocol (createStreamOutput; openStagedOutputWithOperations; createStagedFile +
+// openStagedFile; writeCutOutputWith + cutDestinationMode + createCutTemporaryOutput) every os.Stat / os.Lstat
+// call (SStat / SLstat; the injected statFn / stat fields are resolved through defaultFileOperations /
+// defaultCutOutputOperations, which must bind them to os.Stat or os.Lstat) and the flag set of every
+// OpenFile / openExclusiveFn call ("OTHER" for anything that is not an os.O_* constant).  For createCutTemporaryOutput it checks strings.Replace(pattern, "*", …, 1),
 // filepath.Join(dir, name) and O_CREATE|O_EXCL.  A missing function / callee, or a failed check, is an error (exit 1).
 package main
 
@@ -263,8 +268,131 @@ func main() {
 		fmt.Fprintf(&sb, "  (* %s %s: dir = %s; pattern = %s *)\n", s.file, s.fn, src(dirE), src(patE))
 		fmt.Fprintf(&sb, "  (\"%s\", Site %s [%s])%s\n", s.fn, dirTok, strings.Join(ps, "; "), sep)
 	}
-	sb.WriteString("].\n")
+	sb.WriteString("].\n\n")
+	sb.WriteString(publishSites(*repo))
 	if err := os.WriteFile(*out, []byte(sb.String()), 0o644); err != nil {
 		die("%v", err)
 	}
+}
+
+// ---------------------------------------------------------------------------------------------
+
+type pubSpec struct {
+	name  string
+	file  string
+	funcs []string
+	// field of an operations table that is called instead of os.Stat, the function holding the table literal
+	statField, tableFunc string
+}
+
+var pubSites = []pubSpec{
+	{"createStreamOutput", "pkg/cli/io.go", []string{"createStreamOutput"}, "", ""},
+	{"openStagedOutputWithOperations", "pkg/api/file.go", []string{"openStagedOutputWithOperations"}, "statFn", "defaultFileOperations"},
+	{"createStagedFile", "pkg/pdfcpu/io.go", []string{"createStagedFile", "openStagedFile"}, "", ""},
+	{"writeCutOutputWith", "pkg/api/cut.go", []string{"writeCutOutputWith", "cutDestinationMode", "createCutTemporaryOutput"}, "stat", "defaultCutOutputOperations"},
+}
+
+func flagNames(e ast.Expr) []string {
+	switch x := e.(type) {
+	case *ast.ParenExpr:
+		return flagNames(x.X)
+	case *ast.BinaryExpr:
+		if x.Op == token.OR {
+			return append(flagNames(x.X), flagNames(x.Y)...)
+		}
+	case *ast.SelectorExpr:
+		if id, ok := x.X.(*ast.Ident); ok && id.Name == "os" && strings.HasPrefix(x.Sel.Name, "O_") {
+			return []string{x.Sel.Name}
+		}
+	}
+	return []string{"OTHER"}
+}
+
+// os.Stat / os.Lstat bound to a field of a composite literal inside fn
+func tableBinding(f *ast.File, fn, field string) string {
+	fd := findFunc(f, fn)
+	if fd == nil {
+		die("function %s not found", fn)
+	}
+	res := ""
+	ast.Inspect(fd.Body, func(n ast.Node) bool {
+		kv, ok := n.(*ast.KeyValueExpr)
+		if !ok {
+			return true
+		}
+		if k, ok := kv.Key.(*ast.Ident); ok && k.Name == field {
+			res = src(kv.Value)
+		}
+		return true
+	})
+	switch res {
+	case "os.Stat":
+		return "SStat"
+	case "os.Lstat":
+		return "SLstat"
+	}
+	die("%s: field %s is bound to `%s`, expected os.Stat or os.Lstat", fn, field, res)
+	return ""
+}
+
+func publishSites(repo string) string {
+	var sb strings.Builder
+	sb.WriteString("Definition publish_sites : list (string * pubsite) := [\n")
+	for i, ps := range pubSites {
+		f, err := parser.ParseFile(fset, filepath.Join(repo, ps.file), nil, 0)
+		if err != nil {
+			die("%v", err)
+		}
+		var stats, opens []string
+		for _, fn := range ps.funcs {
+			fd := findFunc(f, fn)
+			if fd == nil || fd.Body == nil {
+				die("%s: function %s not found", ps.file, fn)
+			}
+			ast.Inspect(fd.Body, func(n ast.Node) bool {
+				c, ok := n.(*ast.CallExpr)
+				if !ok {
+					return true
+				}
+				callee := src(c.Fun)
+				switch {
+				case callee == "os.Stat":
+					stats = append(stats, "SStat")
+				case callee == "os.Lstat":
+					stats = append(stats, "SLstat")
+				case ps.statField != "" && (callee == "ops."+ps.statField || callee == ps.statField):
+					stats = append(stats, tableBinding(f, ps.tableFunc, ps.statField))
+				case calleeName(c) == "OpenFile" || calleeName(c) == "openExclusiveFn":
+					if len(c.Args) < 2 {
+						die("%s: %s: OpenFile call without flags", ps.file, fn)
+					}
+					var q []string
+					for _, fl := range flagNames(c.Args[1]) {
+						q = append(q, strconv.Quote(fl))
+					}
+					opens = append(opens, "["+strings.Join(q, "; ")+"]")
+				case calleeName(c) == "Open" || calleeName(c) == "Create" || calleeName(c) == "WriteFile" || calleeName(c) == "Truncate":
+					if x, ok := c.Fun.(*ast.SelectorExpr); ok {
+						if id, ok := x.X.(*ast.Ident); ok && id.Name == "os" {
+							opens = append(opens, "["+strconv.Quote("OTHER")+"]")
+						}
+					}
+				}
+				return true
+			})
+		}
+		if ps.statField == "stat" {
+			// cutDestinationMode: `stat := ops.stat; if stat == nil { stat = os.Stat }; stat(outFile)`
+			fd := findFunc(f, "cutDestinationMode")
+			mustContain(fd, "stat := ops.stat", "stat = os.Stat", "stat(outFile)")
+		}
+		sep := ";"
+		if i == len(pubSites)-1 {
+			sep = ""
+		}
+		fmt.Fprintf(&sb, "  (* %s: %s *)\n", ps.file, strings.Join(ps.funcs, ", "))
+		fmt.Fprintf(&sb, "  (\"%s\", PubSite [%s] [%s])%s\n", ps.name, strings.Join(stats, "; "), strings.Join(opens, "; "), sep)
+	}
+	sb.WriteString("].\n")
+	return sb.String()
 }
